@@ -351,6 +351,22 @@ def op_nudge_offset(img, rng, limit):
     return f"nudge_offset level={lv} box={i} {off} -> {new}"
 
 
+def op_offset_into_data(img, rng, limit):
+    """the recorded offset of a box points inside that box's own payload (the offsets keep their order)"""
+    lv, d, lay = _cellh(img, rng, limit)
+    i = rng.randrange(lay['n'])
+    fn = d['cellh'][lay['fod'][i]][1].decode()
+    off = int(d['cellh'][lay['fod'][i]][2])
+    fabs = scan_fabs(d['files'].get(fn, b'')) or []
+    hit = [f for f in fabs if f[0] == off]
+    if not hit or hit[0][5] < 16:
+        return None
+    start, hl, lo, hi, nc, size = hit[0]
+    new = start + hl + 8 * rng.randrange(1, size // 8)
+    d['cellh'][lay['fod'][i]][2] = str(new).encode()
+    return f"offset_into_data level={lv} box={i} {off} -> {new}"
+
+
 def op_edit_fab_text(img, rng, limit):
     """C20: byte-level edit of FAB header text keeping its length or not"""
     lv, d, fn = _pick_file(img, rng, limit)
